@@ -28,7 +28,9 @@ from pathlib import Path
 VERIF = Path(__file__).resolve().parent.parent
 LEAN = VERIF / "lean"
 DRIVER = LEAN / ".lake" / "build" / "bin" / "gmdriver"
-EVIDENCE = VERIF / "evidence"
+# evidence/ holds only what the registered commands wrote about /repo itself; a run against a scratch worktree
+# ($VERIF_REPO: developing a fix, trying a seeded defect) writes under scratch/ (git-ignored) instead
+EVIDENCE = (VERIF / "evidence") if not os.environ.get("VERIF_REPO") else (VERIF / "scratch" / "evidence")
 REPLAYS = VERIF / "replays"
 CORPUS = VERIF / "corpus"
 KNOWN = VERIF / "known_findings.json"
@@ -336,7 +338,7 @@ def write_replay(ctx: Ctx, kind: str, payload: dict, idx: int) -> Path:
 
 
 def write_evidence(ctx: Ctx, violations: int, known_hit: list[str]):
-    EVIDENCE.mkdir(exist_ok=True)
+    EVIDENCE.mkdir(parents=True, exist_ok=True)
     ob = obligations_for(ctx.pid)
     n_obl = len(ob.get("theorems", [])) + int(ob.get("examples", 0))
     discharged = 0
